@@ -170,7 +170,7 @@ def run_recorded(case):
                     raise SourceHiccup('source read failed once')
                 c = data[self.pos:] if n is None or n < 0 else data[self.pos:self.pos + n]
                 self.pos += len(c)
-                log.append(('src', len(produced), c))
+                log.append(('src', len(produced), c, n))
                 produced.append(c)
                 return c
 
@@ -243,6 +243,7 @@ def run_recorded(case):
             k = 0
             sizes = [len(c) for c in chunks] + [1 << 16]           # a size of 0 is a read(0) in mid-stream
             for s in sizes:
+                log.append(('ask', k, s))
                 try:
                     c = w.read(s)
                 except SourceHiccup:
@@ -289,6 +290,18 @@ def check_log(rec, case):
             bad.append(('T6-finish-only-at-end-of-stream',
                         {'finished': log[fin_at[0]][1], 'after_source_chunks': log[fin_at[0]][2],
                          'bytes_produced_afterwards': sum(len(e[2]) for e in later)}))
+    # T7 a transparent pipe: the size the reader asks for is the size the source is asked for (read(0) is a probe that
+    # consumes nothing, not a request for everything)
+    asked = None
+    for e in log:
+        if e[0] == 'ask':
+            asked = e[2]
+        elif e[0] == 'src' and len(e) > 3 and asked is not None:
+            count('T7-read-size-handed-to-the-source-unchanged')
+            if e[3] != asked:
+                bad.append(('T7-read-size-handed-to-the-source-unchanged',
+                            {'reader_asked': asked, 'source_was_asked': e[3], 'source_returned_bytes': len(e[2])}))
+                break
     # T1 conservation
     count('T1-conservation')
     for k, r in enumerate(ret):
@@ -365,7 +378,7 @@ def check_log(rec, case):
     return bad, ev
 
 
-def evaluate(ctx, case):
+def _evaluate_no_debug(ctx, case):
     rec = run_recorded(case)
     bad, ev = check_log(rec, case)
     plan = case.get('plan') or {}
@@ -519,3 +532,13 @@ def run(ctx):
                     continue
                 emit(dict(s, cuts=cuts_for(rng, n, k=4), source='file', expected=rng.choice([None, None, target, rng.choice(NAMES)]),
                           allowed=None, plan={}, line_fault=k, line_target=target), 'line-failpoint')
+
+
+def _debug_ok(case):
+    return True
+
+
+# a third of the cases runs with the library's loggers at DEBUG and a handler that renders every record (debug=True in a
+# service's configuration); what the inspectors conclude may not depend on it
+from vlib import envmodes as _envmodes_dbg  # noqa: E402
+evaluate = _envmodes_dbg.with_modes(_evaluate_no_debug, debug=_debug_ok)
